@@ -97,6 +97,8 @@ def dl_histories(depth):
         if nopen < 3:
             cands.append(("open", 1, 1))
         cands.append(("openbad", 0, 0))
+        if len(seq) <= 1:
+            cands.append(("self", 0, 0))
         for o in range(nobj):
             cands += [("load:%d" % o, 1, 0), ("loadbad:%d" % o, 0, 0), ("copy:%d" % o, 1, 0), ("del:%d" % o, 0, 0),
                       ("call:%d" % o, 0, 0)]
@@ -154,7 +156,7 @@ def gen_c19(tier, rng):
             if (nobj == 0 or r < 12) and nopen < 6:
                 seq.append("open"); nobj += 1; nopen += 1; alive.append(True); types.append("d")
             elif r < 18:
-                seq.append("openbad")
+                seq.append(rng.choice(["openbad", "openbad", "self"]))
             elif nobj:
                 o = rng.below(nobj)
                 k = rng.choice(["load", "loadbad", "copy", "copy", "del", "del", "call", "asgn", "asgn"])
